@@ -41,6 +41,8 @@ def build(cs):
         d = f.createDimension(n, ln)
         if n == 't' and ud != 'none':
             d.setunlimited(True)
+        if n == 'y' and ud == 'two':    # a second unlimited dimension
+            d.setunlimited(True)
     f.createDimension('nc', 4)
     dt = cs['dt']
     a, b = fills(dt)
@@ -159,6 +161,16 @@ def gen_cases(rnd, tier, fillcfgs):
         cases.append({'dt': dt, 'masked': rnd.choice(['no', 'no', 'some']),
                       'fill': rnd.choice(fillcfgs), 'rank': rk, 'unlim': ud,
                       'flavour': fl, 'comp': rnd.choice([0, 1])})
+    # two unlimited dimensions (representable in NETCDF4 only)
+    # (3-D variables only: an unlimited dimension no variable uses has no
+    # length in a netCDF file)
+    for dt in ('f', 'i', 'd', 'h'):
+        for rk in ('3d',):
+            for comp in (0, 1):
+                cases.append({'dt': dt, 'masked': rnd.choice(['no', 'some']),
+                              'fill': rnd.choice(fillcfgs), 'rank': rk,
+                              'unlim': 'two', 'flavour': 'NETCDF4',
+                              'comp': comp})
     # the same with 0 as the first fill value (a third of the masked cases)
     for c in cases:
         c['zero'] = bool(c['masked'] != 'no' and c['dt'] != 'c' and
